@@ -35,8 +35,19 @@ has ended (`drain`).  The interleavings covered are therefore the nested ones (a
 another one runs from start to end); the harness realises exactly these with gates.  Go's real scheduler and timing are
 parameters (DESIGN §5).  Everything recurses on an explicit fuel (`Outcome.fuel` = not enough); `fuelFor` is enough.
 
-The harness' own conventions are part of the model and marked `harness:` — the tag stored under `tagKey` that gives
-contexts a printable identity, and the fresh parented loader handed to `DoWithLoader`.
+The harness' own conventions are part of the model and marked `harness:` — the printable identity of a context
+(`Ctx.tag`: the harness keeps a registry context object → number; it is NOT stored in the context, so that a context's
+variable map goes through all of its states: never allocated, allocated with entries, allocated and emptied by `Delete`),
+and the fresh parented loader handed to `DoWithLoader`.
+
+nil vs empty map.  `pxContext.vars` is `nil` until the first `Set`; `Delete` never sets it back to `nil`.  The model does
+not represent the difference between `nil` and an allocated empty map (`vars = []` stands for both).  This is sound for the
+code as it is now because no modelled operation distinguishes them: `Get` answers `(nil,false)` on both, `Delete` is a
+no-op on both, `Set` makes a one-entry map from both, and `Fork` gives the child `nil` for `nil` and a fresh empty map for
+an empty map (`if c.vars != nil { copy }` after `*clone = *c`) — in either case a map the parent does not hold.  A change
+that makes `Fork` treat the two differently (e.g. skipping the copy for an EMPTY map, which leaves the struct copy's alias
+in place) is outside what the model can mirror; it is caught by the correspondence run (`(del k)` programs) and by the
+regenerated fact `ctxFork … varsFreshCopyIfNonNil`.
 -/
 namespace Pcore.Tls
 
@@ -46,15 +57,15 @@ abbrev LoaderId := Nat
 
 /-- `px.PuppetContextKey` -/
 def ctxKey : String := "puppet.context"
-/-- harness: variable that carries a context's printable identity -/
-def tagKey : String := "tag"
 
 /-- leaf operations (each is preceded by a scheduling point) -/
 inductive Leaf where
   | obs                               -- px.CurrentContext(): identity (tag), Stack()
   | set (k : String) (x : Nat)        -- c.Set(k, x)
   | get (k : String)                  -- c.Get(k)
+  | del (k : String)                  -- c.Delete(k)
   | push (l : Nat)                    -- c.StackPush(loc l)
+  | pop                               -- c.StackPop()   (on an empty stack: Go slices out of range = panic)
   | deftype (n : String)              -- c.DefiningLoader().SetEntry(type n, value)
   | load (n : String)                 -- px.Load(c, type n)
   | panic
@@ -77,7 +88,9 @@ inductive Prog where
 @[match_pattern] abbrev Prog.obs : Prog := .leaf .obs
 @[match_pattern] abbrev Prog.set (k : String) (x : Nat) : Prog := .leaf (.set k x)
 @[match_pattern] abbrev Prog.get (k : String) : Prog := .leaf (.get k)
+@[match_pattern] abbrev Prog.del (k : String) : Prog := .leaf (.del k)
 @[match_pattern] abbrev Prog.push (l : Nat) : Prog := .leaf (.push l)
+@[match_pattern] abbrev Prog.pop : Prog := .leaf .pop
 @[match_pattern] abbrev Prog.deftype (n : String) : Prog := .leaf (.deftype n)
 @[match_pattern] abbrev Prog.load (n : String) : Prog := .leaf (.load n)
 @[match_pattern] abbrev Prog.panic : Prog := .leaf .panic
@@ -93,6 +106,8 @@ structure Ctx where
   loader : List LoaderId := []
   stack : List Nat := []
   vars : List (String × Nat) := []
+  /-- harness: the number under which the harness' registry knows this context object (not a pcore field) -/
+  tag : Option Nat := none
   deriving Repr, DecidableEq, Inhabited
 
 /-- association lists: Go maps with string keys -/
@@ -191,10 +206,15 @@ def newLoader (w : World) : LoaderId × World :=
 
 /-- `pxContext.Fork`: stack copied, vars copied, loader wrapped in a new parented loader -/
 def forkCtx (c : CtxId) (w : World) : CtxId × World :=
-  newCtx { loader := (newLoader w).1 :: (w.ctxs c).loader, stack := (w.ctxs c).stack, vars := (w.ctxs c).vars } (newLoader w).2
+  newCtx { loader := (newLoader w).1 :: (w.ctxs c).loader, stack := (w.ctxs c).stack, vars := (w.ctxs c).vars,
+           tag := none } (newLoader w).2
 
 def setVar (c : CtxId) (k : String) (x : Nat) (w : World) : World :=
   ctxUpd c (fun y => { y with vars := aset k x y.vars }) w
+
+/-- harness: the context object gets its number in the harness' registry -/
+def setTag (c : CtxId) (id : Nat) (w : World) : World :=
+  ctxUpd c (fun y => { y with tag := some id }) w
 
 /-- `parentedLoader.LoadEntry` along the chain (parent first; a parent's placeholder or miss falls back to the own table);
     the last loader of the chain is a `basicLoader` -/
@@ -248,7 +268,7 @@ def doWithContext (v : Ver) (g : Gid) (cx : CtxId) (body : World → Outcome × 
 def doParent (v : Ver) (g : Gid) (id : Nat) (ctch : Bool) (body : CtxId → World → Outcome × World) (root : CtxId)
     (w : World) : Outcome × World :=
   let r := doWithContext v g (forkCtx root w).1
-    (fun w4 => body (forkCtx root w).1 (setVar (forkCtx root w).1 tagKey id w4)) (forkCtx root w).2
+    (fun w4 => body (forkCtx root w).1 (setTag (forkCtx root w).1 id w4)) (forkCtx root w).2
   if ctch = true ∧ r.1 = .panicked then (.normal, emit g .recovered r.2) else r
 
 /-- `pcore.Do` (`ctch = false`) / `pcore.Try` (`ctch = true`) on goroutine `g`.
@@ -275,7 +295,7 @@ def runTask (v : Ver) (ex : Prog → Gid → CtxId → World → Outcome × Worl
   match tlSet t.gid ctxKey fc.1 fc.2 with
   | none => fc.2
   | some w3 =>
-    let r := ex t.prog t.gid fc.1 (setVar fc.1 tagKey (1000 + t.gid) (note t.gid fc.1 w3))
+    let r := ex t.prog t.gid fc.1 (setTag fc.1 (1000 + t.gid) (note t.gid fc.1 w3))
     let w5 := emit t.gid (.done r.1) r.2
     tlCleanup t.gid { w5 with oof := w5.oof || r.1 = .fuel }
 
@@ -302,10 +322,15 @@ def leafStep (g : Gid) (c : CtxId) (l : Leaf) (w : World) : Outcome × World :=
   | .obs =>
     match tlGet g ctxKey w with
     | none => (.normal, emit g (.obs none c none []) w)
-    | some cur => (.normal, emit g (.obs (some cur) c (aget tagKey (w.ctxs cur).vars) (w.ctxs cur).stack) w)
+    | some cur => (.normal, emit g (.obs (some cur) c (w.ctxs cur).tag (w.ctxs cur).stack) w)
   | .set k x => (.normal, setVar c k x w)
   | .get k => (.normal, emit g (.get k (aget k (w.ctxs c).vars)) w)
+  | .del k => (.normal, ctxUpd c (fun y => { y with vars := adel k y.vars }) w)
   | .push l => (.normal, ctxUpd c (fun y => { y with stack := y.stack ++ [l] }) w)
+  | .pop =>
+    match (w.ctxs c).stack with
+    | [] => (.panicked, w)                       -- `c.stack[:len(c.stack)-1]` with len 0: slice bounds out of range
+    | _ :: _ => (.normal, ctxUpd c (fun y => { y with stack := y.stack.dropLast }) w)
   | .deftype n =>
     match (w.ctxs c).loader with
     | [] => (.panicked, w)                       -- `No defining loader found in context`
@@ -338,7 +363,7 @@ def exec (v : Ver) : Nat → Prog → Gid → CtxId → World → Outcome × Wor
       | o => (o, r.2)
     | .doctx id p =>
       let fc := forkCtx c w
-      doWithContext v g fc.1 (fun w2 => exec v f p g fc.1 w2) (setVar fc.1 tagKey id fc.2)
+      doWithContext v g fc.1 (fun w2 => exec v f p g fc.1 w2) (setTag fc.1 id fc.2)
     | .dodo id p =>
       doDo v g id false (fun cx w1 => exec v f p g cx w1) w
     | .dotry id p =>
